@@ -25,7 +25,7 @@ def plan_cli(steps, R, P, faulty):
             steps.append({'k': 'cli', 'cmd': cmd, 'files': files, 'src': src, 'page_size': R.randint(1, 5),
                           'suffix': R.choice([None, None, '.mos.xml', '.xml'])})
         else:
-            usable = [i for i, s in enumerate(st) if s['op']['type'] != 'Raw' and not s.get('corrupt') and not s['op'].get('malformed')]
+            usable = [i for i, s in enumerate(st) if s['op']['type'] != 'Raw' and not s.get('corrupt') and not s['op'].get('malformed') and not s.get('remid')]
             sel = list(usable)
             kind = R.choice(['plain', 'plain', 'plain', 'no-create', 'no-delete', 'subset', 'bad-input', 'bad-output', 'none', 'dup-path', 'dup-path'])
             if kind == 'no-create':
@@ -45,7 +45,7 @@ def plan_cli(steps, R, P, faulty):
                                                                   {'bad': 'eacces'}, {'bad': 'dir'}]))
             out = None
             if R.random() < 0.5:
-                out = {'name': 'out-%d.xml' % len(steps)}
+                out = {'name': 'merged-out.xml'}      # every merge of a run writes to the same file
                 if kind == 'bad-output':
                     out['fault'] = R.choice([{'kind': 'nodir'}, {'kind': 'enospc', 'after': R.randint(0, 50)}, {'kind': 'eacces'}])
             steps.append({'k': 'cli', 'cmd': 'merge', 'files': files, 'kind': kind, 'incomplete': R.random() < 0.5,
@@ -269,6 +269,10 @@ def _merge(run, step, files, src, add, tag, sig):
                 run.fs.set_fault(outpath, {'kind': 'enospc', 'after': fault.get('after', 0)})
         argv += ['-o', outpath]
     fired0 = sum(run.fs.fired.values()) + sum(run.s3.fired.values())
+    previous = None
+    if outpath and not (out or {}).get('fault') and os.path.isfile(outpath):
+        with open(outpath, 'rb') as fh:
+            previous = fh.read()
     rv, exc, sout, serr = _call_main(argv)
     run.event(run.step_i, 'cli', 'merge', src, repr(rv), bool(serr.strip()), type(exc).__name__)
     fired = sum(run.fs.fired.values()) + sum(run.s3.fired.values()) > fired0
@@ -308,6 +312,17 @@ def _merge(run, step, files, src, add, tag, sig):
                 if out['fault']['kind'] in ('eacces', 'enospc') and not fired:
                     expect_error = None     # the configured fault was never reached: fault-free behaviour expected
     if expect_error:
+        if previous is not None:
+            # the result of an earlier successful merge is still there: a failing merge must not destroy it
+            run.probes['failed-merge-over-existing-output'] += 1
+            try:
+                with open(outpath, 'rb') as fh:
+                    now = fh.read()
+            except OSError:
+                now = None
+            if now != previous:
+                add('C19.merge', 'merge failed (%s, exit %r) but clobbered the existing output file (%s bytes -> %s)' % (
+                    expect_error, rv, len(previous), 'missing' if now is None else len(now)))
         if rv != 2:
             add('C19.merge', 'merge with %s returned %r instead of exit status 2 (stderr %r)' % (expect_error, rv, serr[-200:]))
         elif not serr.strip():
